@@ -1,0 +1,3 @@
+//! Verification hooks (cargo feature `verif_hooks`, off by default). Nothing in
+//! here is compiled into a normal build.
+pub mod sync;
